@@ -213,9 +213,12 @@ class Interp:
 
         self.vy = vy_ast
         self.env = env
+        from vyper.compiler.settings import anchor_settings
+
         cd = CompilerData(src, settings=settings)
-        self.mod = cd.annotated_vyper_module
-        lay = cd.storage_layout
+        with anchor_settings(settings):  # the layout depends on the EVM target (the lock key lives in storage before cancun)
+            self.mod = cd.annotated_vyper_module
+            lay = cd.storage_layout
         self.slots = {}
         for space, key in (("storage", "storage_layout"), ("transient", "transient_storage_layout")):
             for name, d in (lay.get(key) or {}).items():
